@@ -128,7 +128,9 @@ inline std::string readWith(const std::string& path, RecHandler& h, bool withMsg
   QuietUtils u;
   std::string res, emsg;
   try {
-    auto st = mp::ReadSOLFile(path, h, u);
+    int irv = 12345;
+    auto st = mp::ReadSOLFile(path, h, u, &irv);
+    if (irv == 12345) st.first = (NLW2_SOLReadResultCode)99;   // internal result code never set
     res = std::string("code=") + codeName(st.first) + " msg=" + (st.second.empty() ? "0" : "1");
     emsg = st.second.substr(0, 8192);
   } catch (const std::exception& e) {
